@@ -267,6 +267,29 @@ def main(ctx):
             res.note(["exact", t], True, cls="exact_or_reject_class")
             judge_exact(t, r, res)
             res.classes["exact_or_reject:" + ("rendered" if "ok" in r else "rejected")] += 1
+    # nesting: every depth the parser accepts (and a little beyond), arrays / objects / alternating, empty and
+    # non-empty innermost container
+    nest = []
+    for d in list(range(1, 131)):
+        for shape in ("array", "object", "mixed"):
+            for inner in ("[]", '{"z":[1,"x"],"a":0}', "7"):
+                t = inner
+                for i in range(d):
+                    as_obj = shape == "object" or (shape == "mixed" and i % 2)
+                    t = '{"k":' + t + "}" if as_obj else "[" + t + "]"
+                nest.append((d, t))
+    no = common.run_batch(ctx.bin, [{"op": "canon", "texts": [t for _, t in nest]}], keys=False)[0]
+    if "res" not in no:
+        res.inconclusive.append("executor failure in nesting sweep")
+    else:
+        deepest = 0
+        for (d, t), r in zip(nest, no["res"]):
+            if "parse_err" in r:
+                continue        # beyond what the JSON reader accepts: not a value the function was given
+            deepest = max(deepest, d)
+            res.note(["nest", t], True, cls="nesting_depth_sweep")
+            judge_value(json.loads(t), [t], [r], res, "nesting")
+        res.extras["deepest_nesting_canonicalised"] = deepest
     unicode_sweep(ctx.bin, res, full=True)
     res.extras["exhaustive_subspaces"] = ["every Unicode scalar value as one-character string and as one-character key",
                                           "listed non-integer / out-of-range number spellings"]
@@ -279,6 +302,6 @@ def main(ctx):
         assumptions=["routes compared: Json::canonicalize, Json::to_writer, JsonPretty::canonicalize, Json::canonicalize of Json::serialize",
                      "Python json.dumps(sort_keys, ensure_ascii=False, separators) is the reference encoder",
                      "serde_json is the parser that defines 'the same value' for a spelling"],
-        required=["four_public_routes_agree", "value:dict", "value:list", "value:str", "value:int", "non_integer_rejected", "value_after_rejected_document",
+        required=["nesting_depth_sweep", "four_public_routes_agree", "value:dict", "value:list", "value:str", "value:int", "non_integer_rejected", "value_after_rejected_document",
                   "unicode_scalars_as_string_and_key"],
         min_evals=10000)
